@@ -1,5 +1,6 @@
 import PdshVerif.Dsh.FanG
 import PdshVerif.Dsh.FanRelay
+import PdshVerif.Dsh.FanX
 import PdshVerif.Base.Hex
 import Driver.Util
 
@@ -19,6 +20,16 @@ import Driver.Util
     cfail W<i>                       rcmd_connect of target i failed: no streams            -> ok | reject ..
     (in relay mode every `ev` goes through `FanRelay.step`: a worker may leave its read loop only when its polled
     streams are over, and reads happen only inside the loop)
+    ENVIRONMENT (`Dsh/FanX.lean`, the LTS of Props/C03 `X` / Props/C04 `X`; outside relay mode EVERY `ev` goes through
+    `FanX.step`, which wraps `FanG.step`):
+    initx <if|while> <setting> <N> <k> <soft> <hard>   start a new trace: `-k` or not, RLIMIT_NOFILE at the call of
+                                     dsh(); performs the prologue transition `nofile soft hard`   -> ok
+    ev D createfail <j>              pthread_create for worker j returned an error               -> ok | reject ..
+    lim <setting> <soft0> <hard0> <fanout_used> <soft>   `_increase_nofile_limit` as a function: what the run left in
+                                     opt->fanout and in the soft limit vs `FanX.increaseNofile`   -> ok | reject ..
+    end exit <code>                  the process exited inside dsh(): ok iff the model has exited with that status
+                                     (or, in relay mode / without a failed create, is not Final)
+    (`init` = `initx` with k = 0 and limits 0 0: nothing to raise.)
     After a reject every line up to the next `init` answers `skip`.
     The transition function is `PdshVerif.Dsh.FanG.step`, the one the theorems are about: the LTS with the
     signalling discipline left open.  An observed call is mapped to a label by what it DOES in the state it is made
@@ -37,6 +48,24 @@ structure Acc where
   evs : List (PdshVerif.Relay.Key × PdshVerif.Relay.LEv) := []
   sopt : Bool := false
   nofd : List Nat := []
+  ph : PdshVerif.Dsh.FanX.Phase := .running
+  kopt : Bool := false
+  termSent : Bool := false
+  soft : Nat := 0
+
+open PdshVerif.Dsh in
+def Acc.xst (a : Acc) (s : St) : FanX.St := { g := s, ph := a.ph, kopt := a.kopt, termSent := a.termSent, soft := a.soft }
+
+open PdshVerif.Dsh in
+def Acc.ofXst (a : Acc) (x : FanX.St) : Acc :=
+  { a with st := some x.g, ph := x.ph, kopt := x.kopt, termSent := x.termSent, soft := x.soft }
+
+open PdshVerif.Dsh in
+/-- start of a trace outside relay mode: `FanX.init`, then the prologue transition in the given environment -/
+def startX (v : Variant) (setting n : Nat) (k : Bool) (soft hard : Nat) : Acc :=
+  match FanX.step (FanX.init v setting n k) (.nofile soft hard true true) with
+  | some x => ({ dead := false } : Acc).ofXst x
+  | none => { dead := true }
 
 open PdshVerif.Dsh in
 def Acc.rst (a : Acc) (s : St) : FanRelay.St := { fan := s, evs := a.evs, sopt := a.sopt, nofd := a.nofd }
@@ -76,6 +105,10 @@ def parseLabels : List String → List Label
 
 /-- perform the observed call: the first candidate label that is enabled -/
 def stepObserved (s : St) (ls : List Label) : Option St := ls.findSome? (step s)
+
+open PdshVerif.Dsh in
+/-- the same through the environment LTS -/
+def stepObservedX (x : FanX.St) (ls : List Label) : Option FanX.St := ls.findSome? fun l => FanX.step x (.g l)
 
 open PdshVerif.Dsh in
 /-- the same in relay mode -/
@@ -137,7 +170,33 @@ def stepLine (a : Acc) (line : String) : Acc × String :=
     match f.toNat?, n.toNat? with
     | some f, some n =>
       let v := if v = "if" then Variant.ifWait else Variant.whileWait
-      ({ st := some (init v f n), dead := false }, "ok")
+      (startX v f n false 0 0, "ok")
+    | _, _ => (a, "bad-line")
+  | ["initx", v, f, n, k, soft, hard] =>
+    match f.toNat?, n.toNat?, soft.toNat?, hard.toNat? with
+    | some f, some n, some soft, some hard =>
+      let v := if v = "if" then Variant.ifWait else Variant.whileWait
+      (startX v f n (k = "1") soft hard, "ok")
+    | _, _, _, _ => (a, "bad-line")
+  | ["lim", f, soft0, hard0, used, soft] =>
+    if a.dead then (a, "skip") else
+    match f.toNat?, soft0.toNat?, hard0.toNat?, soft.toNat? with
+    | some f, some soft0, some hard0, some soft =>
+      let r := PdshVerif.Dsh.FanX.increaseNofile f soft0 hard0 true true
+      if used.toInt? ≠ some (Int.ofNat r.2) then
+        (a, s!"reject fanout in use after _increase_nofile_limit: impl={used} model={r.2} (setting {f}, limits {soft0}/{hard0})")
+      else if soft ≠ r.1 then
+        (a, s!"reject soft descriptor limit after _increase_nofile_limit: impl={soft} model={r.1} (setting {f}, limits {soft0}/{hard0})")
+      else (a, "ok")
+    | _, _, _, _ => (a, "bad-line")
+  | ["ev", "D", "createfail", j] =>
+    if a.dead then (a, "skip") else
+    match a.st, j.toNat? with
+    | some s, some j =>
+      if a.relay then (a, "bad-line") else
+      match PdshVerif.Dsh.FanX.step (a.xst s) (.createFail j) with
+      | some x => (a.ofXst x, "ok")
+      | none => ({ a with dead := true }, s!"reject a failing pthread_create is not possible here in the model: worker {j} ({showSt s})")
     | _, _ => (a, "bad-line")
   | ["initr", v, f, n, sopt] =>
     match f.toNat?, n.toNat? with
@@ -174,16 +233,31 @@ def stepLine (a : Acc) (line : String) : Acc × String :=
           let why := if (stepObserved s ls).isSome then " (enabled in the protocol LTS, refused by the composition: the worker leaves its read loop before its polled streams are over)" else ""
           ({ a with dead := true }, s!"reject not enabled in the model{why}: {" ".intercalate rest} ({showSt s})")
       else
-      match stepObserved s ls with
-      | some s' => ({ a with st := some s' }, "ok")
-      | none => ({ a with dead := true }, s!"reject not enabled in the model: {" ".intercalate rest} ({showSt s})")
+      match stepObservedX (a.xst s) ls with
+      | some x => (a.ofXst x, "ok")
+      | none =>
+        let why := if (stepObserved s ls).isSome then " (pdsh has exited in the model: pthread_create failed)" else ""
+        ({ a with dead := true }, s!"reject not enabled in the model{why}: {" ".intercalate rest} ({showSt s})")
     | none, _ => ({ a with dead := true }, "reject unknown event " ++ " ".intercalate rest)
+  | ["end", "exit", code] =>
+    if a.dead then (a, "skip") else
+    match a.st with
+    | some s =>
+      match a.ph with
+      | .exited c =>
+        if code.toNat? = some c then (a, "ok")
+        else (a, s!"reject exit status after a failed pthread_create: impl={code} model={c}")
+      | _ =>
+        if s.dpc = .returned then (a, s!"reject the process exited inside dsh() but the model has returned ({showSt s})")
+        else (a, "ok")
+    | none => (a, "bad-line")
   | ["end", status] =>
     if a.dead then (a, "skip") else
     match a.st with
     | some s =>
       if status = "ok" then
-        if s.dpc = .returned then (a, "ok") else (a, s!"reject run ended but the model is not final ({showSt s})")
+        if a.ph != .running then (a, s!"reject run ended normally but pdsh has exited in the model ({showSt s})")
+        else if s.dpc = .returned then (a, "ok") else (a, s!"reject run ended but the model is not final ({showSt s})")
       else if status = "deadlock" then
         if enabledNames s = [] then (a, "ok") else (a, s!"reject implementation deadlocked, model has enabled {enabledNames s}")
       else (a, "ok")
